@@ -11,15 +11,12 @@
   executes nothing, no such call; nothing lies between events.  (`C18_flat_exact`, `C18_flat_history`.)
 
   NESTED (`_final_check` of nesting.py, `Model/Final.lean` = the code after fix: commits 919a36b and
-  576f1fd, 56c10cf; spec `Model/Spec/C18.lean`).  `C18_nested_exact`: for every state tree, every placement of final
+  576f1fd, 56c10cf, 4b253dd; spec `Model/Spec/C18.lean`).  `C18_nested_exact`: for every state tree, every placement of final
   flags and callbacks, every configuration and every entered set a transition can produce, the owners
   whose on_final lists the transition runs are exactly the states that `fires`, children first, the
-  machine last, and the check never raises.  FALSE for the code as it is in one class of inputs (finding
-  F-C18-root-reads-machine-final: at the root scope `_final_check` reads `getattr(machine, 'final', False)`; a
-  machine that is its own model and has an event named `final` has such an attribute): full statement kept as a
-  `def`, `C18_nested_exact_partial` under `machineFinalAttr = false`, `C18_nested_exact_counterexample`.
+  machine last, and the check never raises.
   The defects of the tree before the fixes (DESIGN 6
-  items 10, 11, 18, and object-identity of "just entered") are kept as regression examples: the model of the repaired code gives the specified
+  items 10, 11, 18, object-identity of "just entered", `final` read from the machine object) are kept as regression examples: the model of the repaired code gives the specified
   answer on their witnesses; a return of any of them is a VIOLATION (monitor) of the check.
 -/
 import Proofs.C18
@@ -157,46 +154,27 @@ example : ((runHistory reScript (reCfg [2]) 8 3 [.trigger 0 0] (St.init (reCfg [
 
 /-! ## hierarchical machines -/
 
-/-- **C18, nested, FULL STRENGTH** (kept visible; FALSE for the code as it is — see
-`C18_nested_exact_counterexample`): for every state tree, every placement of final flags and callbacks,
-every machine object (with or without an attribute named `final`), every configuration and every entered
-set a transition can produce (`enteredWF`: the entered states are active afterwards, and below an entered
-state everything active was entered), `_final_check` returns — without raising — exactly the owners that
-fire, children first, the machine last.  States are paths: two copies of an embedded child machine's state
-are two states. -/
-def C18_nested_exact : Prop :=
-  ∀ (D : Defs) (E : List Nat) (roots : List Tree), enteredWF E roots = true →
-    finalCheckRoot D E roots = .ok (expected D E roots)
-
-/-- the part that holds: the machine object has no attribute named `final` (every machine that is not its own
-model, and every self-model machine without an event / attribute of that name) -/
-theorem C18_nested_exact_partial (D : Defs) (E : List Nat) (roots : List Tree)
-    (hW : enteredWF E roots = true) (hM : D.machineFinalAttr = false) :
+/-- **C18, nested, full strength**: for every state tree, every placement of final flags and
+callbacks, every configuration and every entered set a transition can produce (`enteredWF`: the
+entered states are active afterwards, and below an entered state everything active was entered),
+`_final_check` returns — without raising — exactly the owners that fire, children first, the machine
+last.  States are paths: two copies of an embedded child machine's state are two states.  The machine
+object is not an input: the root scope never reads its attributes (fix 4b253dd). -/
+theorem C18_nested_exact (D : Defs) (E : List Nat) (roots : List Tree)
+    (hW : enteredWF E roots = true) :
     finalCheckRoot D E roots = .ok (expected D E roots) :=
-  finalCheckRoot_spec D E roots hW hM
+  finalCheckRoot_spec D E roots hW
 
-/-- finding F-C18-root-reads-machine-final: a machine that is its own model and has an event named `final`;
-flat states 1 → 2 (2 not final): at the root scope `getattr(machine, 'final', False)` is the trigger, truthy,
-and `machine.scoped_enter` is looked up: AttributeError after the state change; the spec: nothing fires -/
-def selfModelDefs : Defs :=
-  { final := fun _ => false, onFinal := fun _ => [], machineOnFinal := [100], machineFinalAttr := true }
-
-theorem C18_nested_exact_counterexample_machine_final :
-    enteredWF [2] [.node 2 []] = true ∧
-    finalCheckRoot selfModelDefs [2] [.node 2 []] = .attributeError ∧
-    expected selfModelDefs [2] [.node 2 []] = [] := by decide
-
-theorem C18_nested_exact_counterexample : ¬ C18_nested_exact := by
-  intro h
-  have h1 := h selfModelDefs [2] [.node 2 []] (by decide)
-  rw [C18_nested_exact_counterexample_machine_final.2.1] at h1
-  exact absurd h1 (by decide)
+/-- regression witness of finding F-C18-root-reads-machine-final (fixed by 4b253dd; corpus
+`self_model_event_named_final_*.json`): flat states 1 → 2 (2 not final) on a machine that is its own model and
+has an event named `final`: nothing fires, nothing is raised -/
+example : finalCheckRoot { final := fun _ => false, onFinal := fun _ => [], machineOnFinal := [100] } [2] [.node 2 []]
+    = .ok [] := by decide
 
 /-- the callbacks run are those of the owners that fire, in that order -/
-theorem C18_nested_calls (D : Defs) (E : List Nat) (roots : List Tree) (hW : enteredWF E roots = true)
-    (hM : D.machineFinalAttr = false) :
+theorem C18_nested_calls (D : Defs) (E : List Nat) (roots : List Tree) (hW : enteredWF E roots = true) :
     ∃ os, finalCheckRoot D E roots = .ok os ∧ runCalls D os = (expected D E roots).flatMap D.cbsOf :=
-  ⟨_, C18_nested_exact_partial D E roots hW hM, rfl⟩
+  ⟨_, C18_nested_exact D E roots hW, rfl⟩
 
 /-- `expected` is `[s | fires s]`: a state's on_final list is scheduled iff the state is active and fires -/
 theorem C18_nested_owner_iff (D : Defs) (E : List Nat) (roots : List Tree) (i : Nat) :
